@@ -6,6 +6,7 @@ import (
 	"io"
 	"os"
 	"path/filepath"
+	"syscall"
 
 	"github.com/go-kit/log"
 	"github.com/oklog/ulid/v2"
@@ -55,10 +56,16 @@ func buildBlock(dir, scratch string, segs int, mint, maxt int64, ext labels.Labe
 	if err != nil {
 		return id, err
 	}
-	// the number of segment files is monotonically non-increasing in the segment size: binary search.
+	// the number of segment files is monotonically non-increasing in the segment size: binary search,
+	// after one educated first guess (a segment size of size/segs plus some slack usually gives segs files;
+	// tiny segment sizes are expensive: every cut allocates an 8 MiB write buffer).
 	lo, hi := int64(1), fi.Size()+16
-	for lo <= hi {
+	guess := fi.Size()/int64(segs) + 24
+	for first := true; lo <= hi; first = false {
 		sz := (lo + hi) / 2
+		if first && guess > lo && guess < hi {
+			sz = guess
+		}
 		c, err := tsdb.NewLeveledCompactorWithOptions(ctx, nil, nil, []int64{maxt - mint}, nil,
 			tsdb.LeveledCompactorOptions{MaxBlockChunkSegmentSize: sz, EnableOverlappingCompaction: true})
 		if err != nil {
@@ -103,8 +110,12 @@ func countSegs(bdir string) int {
 	return len(es)
 }
 
-// copyDir replicates a directory tree (regular files and directories only).
+// copyDir replicates a directory tree (regular files and directories only). Immutable block files are hard
+// linked to the source (what the shipper itself does), every other file gets a new inode with the same
+// content; files of the source tree that are hard links of each other stay hard links of each other in the
+// copy (a killed process leaves the upload directory's links behind as they were).
 func copyDir(src, dst string) error {
+	linked := map[uint64]string{}
 	return filepath.Walk(src, func(p string, info os.FileInfo, err error) error {
 		if err != nil {
 			return err
@@ -118,10 +129,17 @@ func copyDir(src, dst string) error {
 			return os.MkdirAll(to, 0o755)
 		}
 		if info.Name() == "index" || info.Name() == "tombstones" || filepath.Base(filepath.Dir(p)) == "chunks" {
-			// immutable block files: hard link (what the shipper itself does); every other file is copied.
 			if err := os.Link(p, to); err == nil {
 				return nil
 			}
+		}
+		if st, ok := info.Sys().(*syscall.Stat_t); ok && st.Nlink > 1 {
+			if first, ok := linked[st.Ino]; ok {
+				if err := os.Link(first, to); err == nil {
+					return nil
+				}
+			}
+			linked[st.Ino] = to
 		}
 		in, err := os.Open(p)
 		if err != nil {
@@ -138,6 +156,41 @@ func copyDir(src, dst string) error {
 		}
 		return out.Close()
 	})
+}
+
+// readTree reads every regular file under dir: slash-separated relative path -> content (and its FileInfo).
+// A file that IS a known file (same inode - the harness hard-links the immutable block files from the
+// template into every local directory - with the size and modification time recorded for it) is not read
+// again: its recorded content is returned.
+func readTree(dir string, known map[string]os.FileInfo, content map[string][]byte) (map[string][]byte, map[string]os.FileInfo, error) {
+	out, infos := map[string][]byte{}, map[string]os.FileInfo{}
+	err := filepath.Walk(dir, func(p string, info os.FileInfo, err error) error {
+		if err != nil {
+			return err
+		}
+		if info.IsDir() {
+			return nil
+		}
+		rel, err := filepath.Rel(dir, p)
+		if err != nil {
+			return err
+		}
+		rel = filepath.ToSlash(rel)
+		infos[rel] = info
+		if k, ok := known[rel]; ok && os.SameFile(k, info) && k.Size() == info.Size() && k.ModTime().Equal(info.ModTime()) {
+			if b, ok := content[rel]; ok {
+				out[rel] = b
+				return nil
+			}
+		}
+		b, err := os.ReadFile(p)
+		if err != nil {
+			return err
+		}
+		out[rel] = b
+		return nil
+	})
+	return out, infos, err
 }
 
 // setLevel rewrites the compaction level of a local block's meta.json (what a locally compacted
